@@ -30,7 +30,7 @@ RULE = (
 )
 ASSUMPTIONS = [
     "the order in which several active modes contribute is unspecified: contributions of passes/modes are compared as multisets after the ordered command-line part",
-    "flag names are generated so that they cannot collide with -D/-I/-O/-o/-g/-c or built-in flags (C11's subject)",
+    "flag names are generated so that they cannot collide with -D/-I/-O/-o/-g/-c (C11's subject); the only built-in flag a user file re-declares is -fopenmp (the later rule replaces the earlier one)",
     "a default declared for a pass-selecting flag is active even when the flag is absent (built-in icx/nvcc behaviour, relied on by the existing tests)",
 ]
 
@@ -154,7 +154,7 @@ def model_parse(defn, argv):
             if r.get("format"):
                 vals = [string.Template(r["format"]).substitute(value=x) for x in vals]
             if r["dest"] == "passes":
-                flag_passes[used] = vals
+                flag_passes[key0] = vals  # whichever spelling was used: the flag's default is replaced
             else:
                 lists[r["dest"]] = vals
         elif act == "extend_match":
@@ -321,7 +321,7 @@ def config_strategy():
         )
 
     @st.composite
-    def definition(draw, flag_prefix):
+    def definition(draw, flag_prefix, redefines_builtin=False):
         d = {}
         modes = draw(st.lists(st.sampled_from(mode_names), max_size=3, unique=True))
         passes = draw(st.lists(st.sampled_from(pass_names), max_size=4, unique=True))
@@ -336,17 +336,24 @@ def config_strategy():
             elif kind == "define":
                 rules.append({"flags": [flag], "action": "append_const", "dest": "defines", "const": f"FLAG_{flag_prefix}{j}"})
             elif kind == "split":
-                r = {"flags": [flag], "action": "store_split", "sep": ",", "format": "p-$value", "dest": "passes"}
+                r = {"flags": [flag] + ([flag + "-alt"] if draw(st.booleans()) else []), "action": "store_split", "sep": ",", "format": "p-$value", "dest": "passes"}
                 if draw(st.booleans()):
                     r["default"] = draw(st.lists(st.sampled_from(pass_names), min_size=1, max_size=2, unique=True))
+                    if len(r["default"]) == 1 and draw(st.booleans()):
+                        r["default"] = r["default"][0]  # the schema allows a plain string
                 rules.append(r)
             else:
                 r = {"flags": [flag], "action": "extend_match", "pattern": "v(\\d+)", "format": "p-$value", "dest": "passes"}
                 if draw(st.booleans()):
                     r["default"] = draw(st.lists(st.sampled_from(pass_names), min_size=1, max_size=2, unique=True))
+                    if len(r["default"]) == 1 and draw(st.booleans()):
+                        r["default"] = r["default"][0]
                 if draw(st.booleans()):
                     r["override"] = draw(st.booleans())
                 rules.append(r)
+        if redefines_builtin and draw(st.integers(0, 2)) == 0:
+            # the user's rule replaces the built-in one for this flag
+            rules.append({"flags": ["-fopenmp"], "action": "append_const", "dest": "defines", "const": "USER_OPENMP=1"})
         if rules:
             d["parser"] = rules
         opts = draw(st.lists(st.sampled_from(["-DIMPL", "-DIMPL2=3", "-I/impl/inc", "-isystem", "/impl/sys", "-include", "impl.h"] + [r["flags"][0] for r in rules if r["action"] == "append_const"]), max_size=3))
@@ -364,8 +371,8 @@ def config_strategy():
             d["options"] = fixed
         if modes:
             d["modes"] = [{"name": m, **draw(contrib(m.upper()))} for m in modes]
-        if not fixed and not rules and not modes and not passes:
-            d["options"] = ["-DONLY_OPTION"]  # an empty table matches both schema alternatives and is rejected
+        if not fixed and not rules and not modes and not passes and draw(st.booleans()):
+            d["options"] = ["-DONLY_OPTION"]  # otherwise: an empty table, a compiler that is known and adds nothing
         if passes:
             d["passes"] = [{"name": p, **draw(contrib(p.replace("-", "").upper())), **({"modes": draw(st.lists(st.sampled_from(mode_names), max_size=2, unique=True))} if draw(st.booleans()) else {})} for p in passes]
         return d
@@ -382,7 +389,7 @@ def config_strategy():
             if draw(st.integers(0, 3)) == 0:
                 user[name] = {"alias_of": draw(st.sampled_from(NEW + BUILTINS + ["nonexistent"]))}
             else:
-                user[name] = draw(definition(f"u{name[0]}{len(name)}"))
+                user[name] = draw(definition(f"u{name[0]}{len(name)}", redefines_builtin=True))
         return user
 
     return cfg()
@@ -402,7 +409,7 @@ def commands_for(draw, comps, user):
         flags = []
         if defn:
             for r in defn["parser"]:
-                f = r["flags"][0]
+                f = draw(st.sampled_from(r["flags"])) if r["action"] == "store_split" and len(r["flags"]) > 1 and r["flags"][0].startswith("--") else r["flags"][0]
                 if r["action"] == "append_const":
                     flags.append([f])
                 elif r["action"] == "store_split":
@@ -452,6 +459,9 @@ def check_case(case, res: Result):
         with open(os.path.join(core.REPO, "codebasin", "schema", "cbiconfig.schema")) as fh:
             jsonschema.validate(parsed, json.load(fh))
     except Exception as e:
+        if any(not d for d in user.values()):
+            # an empty compiler table is the documented way to declare a compiler that adds nothing
+            return [make_violation("schema-rejects-empty-compiler-table", cj, "the configuration is valid", f"{type(e).__name__}: {str(e)[:200]}")]
         raise core.HarnessError(f"generated configuration is not valid for the documented schema: {e}\n{text}")
     results = []
     with Session(text) as s:
